@@ -99,7 +99,7 @@ def direct_corr(env: Env, out: Outcome, n: int, gen_kwargs: dict | None = None,
 
 def live_runs(env: Env, out: Outcome, n: int, monitors: list[Callable[[Trace], list[Violation]]],
               gen_kwargs: dict | None = None, extra_specs: Iterable[dict] = (), mutate_spec: Callable[[dict, random.Random], dict] | None = None,
-              check_runner: bool = True) -> list[Trace]:
+              check_runner: bool = True, lifecycle: bool = False) -> list[Trace]:
     rng = random.Random(env.rng.randrange(1 << 30))
     traces: list[Trace] = []
     ops: list[str] = []
@@ -144,7 +144,7 @@ def live_runs(env: Env, out: Outcome, n: int, monitors: list[Callable[[Trace], l
                         "stream": [enc_pub(e) for (e, *_r) in tr.stream][:40]})
         if check_runner and tr.outcome[0] not in ("invalid",):
             try:
-                o, e = corr.runner_lines(tr)
+                o, e = corr.runner_lines(tr, lifecycle=lifecycle)
             except Exception as ex:
                 o, e = [], []
                 out.notes.append(f"runner_lines failed: {type(ex).__name__}: {ex}")
@@ -175,7 +175,7 @@ def live_runs(env: Env, out: Outcome, n: int, monitors: list[Callable[[Trace], l
     return traces
 
 
-def runner_corr(out: Outcome, traces: list[Trace], label: str = "engine-runner") -> None:
+def runner_corr(out: Outcome, traces: list[Trace], label: str = "engine-runner", lifecycle: bool = False) -> None:
     """runner-LTS correspondence for traces produced outside `live_runs` (resumed runs: `rinit` without a start event)"""
     ops: list[str] = []
     exp: list[str] = []
@@ -184,7 +184,7 @@ def runner_corr(out: Outcome, traces: list[Trace], label: str = "engine-runner")
         if tr.outcome[0] in ("invalid",):
             continue
         try:
-            o, e = corr.runner_lines(tr)
+            o, e = corr.runner_lines(tr, lifecycle=lifecycle)
         except Exception as ex:
             out.divergences.append(Divergence(label, 0, "<encode>", "", f"{type(ex).__name__}: {ex}", {"spec": tr.spec}))
             continue
